@@ -263,3 +263,6 @@ Proof.
   - unfold measure. cbn. lia.
   - exists pts. split; auto.
 Qed.
+
+Corollary lex_total prof src : byte_len src < u32_limit -> exists pts, lex prof src = Ok pts.
+Proof. intro H. destruct (lex_stream prof src H) as (pts & Hl & _). exists pts. exact Hl. Qed.
